@@ -10,7 +10,7 @@ response  {"stage":"build","err":e}  when the initial definition is rejected, el
           {"steps":[ {"kind":"mutate","ok":b,"ver":k}
                    | {"kind":"set_params","sp":[..]}
                    | {"kind":"evaluate","name":n,"def_ver":v,"def_at":i,"sp":[..],"recompiled":b,
-                      "cur_ver":k,"fresh":b,"flags":{name:bool}} ...],
+                      "cur_ver":k,"nvals":len(_paramValue),"fresh":b,"flags":{name:bool}} ...],
            "versions":k, "final_sp":[..]}
 `def_ver` = number of successful mutator calls the snapshot's definition includes, `def_at` = index in the
 history of the last of them (-1: the initial definition).
@@ -60,7 +60,7 @@ def canaryLoop (cfg : Cfg) : CState → List Op → Nat → List Nat → List Js
       canaryLoop cfg r.1 ops (i + 1) idx
         (Json.mkObj [("kind", "evaluate"), ("name", e.name), ("def_ver", (sn.ver : Nat)),
                      ("def_at", Json.num (Lean.JsonNumber.fromInt (verIndex idx sn.ver))),
-                     ("sp", strsToJson sn.sp), ("recompiled", Json.bool r.2.2), ("cur_ver", (s.ver : Nat)),
+                     ("sp", strsToJson sn.sp), ("recompiled", Json.bool r.2.2), ("cur_ver", (s.ver : Nat)), ("nvals", (s.pvals.length : Nat)),
                      ("fresh", Json.bool fresh), ("flags", flagsToJson r.1)] :: acc)
 
 def opCanary (j : Json) : Except String Json := do
